@@ -63,14 +63,9 @@ def rule_r2(ctx):
     prog = ctx.prog
     for name in ("nni_chunk_trim", "nni_chunk_chop"):
         f = prog.need(name, "core/message.c")
-        okedge = {}
-        for b in f.blocks.values():
-            c = f.cond(b.id) if b.term and len(b.succs) == 2 else None
-            if c is not None and c.get("k") == "bin" and G.field_is(c["lhs"], "ch_len") and c["rhs"].get("k") == "var":
-                if c["op"] == "<":
-                    okedge[b.id] = 1
-                elif c["op"] == ">=":
-                    okedge[b.id] = 0
+        # ch_len >= len in any spelling (operands swapped, negated, through a temporary)
+        okedge = G.rel_edges(f, lambda m: m is not None and G.field_is(m, "ch_len"),
+                             lambda m: m is not None and m.get("k") == "var", ">=")
         st = [s for s in f.assigns() if s.node["lhs"].get("k") == "mem"]
         if not okedge:
             ctx.fail(r, f, "length test missing", f.line, "%s no longer tests ch_len < len" % name)
